@@ -364,6 +364,45 @@ def run(ctx):
     fw = prog.body(NA + '::from_four_words')
     okfw = bool(fw.calls(r'::decode$')) and bool([c for c in fw.calls(SINK)]) and bool([c for c in fw.calls() if c.callee == NA + '::new'])
     ctx.ob('ROUND-TRIP', 'from_four_words-shape', okfw, fw.where(), 'from_four_words = decode -> parse::<SocketAddr> -> NetworkAddress::new: %s' % okfw)
+    # the address built by a parser is the parse result itself: between `parse::<SocketAddr>()` (or `SocketAddr::new(parsed ip,
+    # parsed port)`) and NetworkAddress::new nothing rewrites the value — "parsing the library's own rendering yields the same
+    # address" fails for exactly the class of addresses any canonicalisation step touches (IPv4-mapped, zero port, scope ids ..).
+    PARSE = re.compile(r'<impl str>::parse$|FromStr for (std|core)::net::\w+>::from_str$|as (core|std)::str::FromStr>::from_str$')
+
+    def _peel(e):
+        while True:
+            e = e.strip()
+            if e.k == 'try':
+                e = e.a
+            elif e.k == 'field' and e.a.strip().k == 'downcast' and e.a.strip().b in ('Ok', 'Some'):
+                e = e.a.strip().a
+            elif e.k == 'call' and re.search(r'Result::<.*>::(unwrap|expect|ok|map_err)$|Option::<.*>::(unwrap|expect|ok_or|ok_or_else)$', e.a) and e.b:
+                e = e.b[0]
+            else:
+                return e
+
+    def _parsed(e):
+        e = _peel(e)
+        if e.k == 'call' and PARSE.search(e.a):
+            return True
+        if e.k == 'call' and re.search(r'net::SocketAddr::new$', e.a) and len(e.b) == 2:
+            return all(_parsed(x) or (_peel(x).k == 'call' and re.search(r'net::IpAddr::(V4|V6)$|From<.*>>::from$', _peel(x).a) and _peel(x).b and _parsed(_peel(x).b[0])) for x in e.b)
+        if e.k == 'agg' and isinstance(e.a, str) and re.search(r'IpAddr::(V4|V6)$', e.a) and e.b:
+            return _parsed(e.b[0])
+        return False
+    nasis = 0
+    for root in ('<%s as std::str::FromStr>::from_str' % NA, NA + '::from_four_words'):
+        pb = prog.inl(root, keep=r'NetworkAddress::(new|from_four_words|encode_four_words)$')
+        for i, c in enumerate(c_ for c_ in pb.calls() if c_.callee == NA + '::new'):
+            e = pb.expr(c.args[0])
+            okp = _parsed(e)
+            nasis += 1
+            ctx.ob('ROUND-TRIP', 'parsed-as-is@%s#%d' % (root.rsplit('::', 1)[-1], i), okp, c.where(),
+                   'NetworkAddress::new is given the parse result itself (%s)' % _peel(e).brief(60) if okp else
+                   'the value given to NetworkAddress::new (%s) is not the parse result itself: something rewrites the parsed socket address before the '
+                   'NetworkAddress is built, so a rendered address of the rewritten class does not parse back to itself' % e.brief(80), entry=root)
+    if nasis < 3:
+        ctx.anchor_fail('ROUND-TRIP', 'NetworkAddress::new call sites in from_str / from_four_words (%d found, 3 expected)' % nasis)
     enc = prog.body(NA + '::encode_four_words')
     rep_e = [fw_c for fw_c in enc.calls(r'str>::replace$|<impl str>::replace$')]
     rep_d = [c for c in fw.calls(r'str>::replace$|<impl str>::replace$')]
